@@ -184,6 +184,25 @@ impl RWorld {
         format!("{}={}|{}|{}|{}", enc_str(p), ex, md, ls, rd)
     }
 
+    pub fn observe_t(&self, fsid: usize, p: &str) -> String {
+        let md = match self.on_path(fsid, p, |q| q.metadata()) {
+            Ok(Ok(m)) => format!("{} {} c={} m={}", enc_type(m.file_type), m.len, enc_ts(m.created), enc_ts(m.modified)),
+            Ok(Err(_)) => "-".into(),
+            Err(_) => "P".into(),
+        };
+        let rd = match self.on_path(fsid, p, |q| {
+            let mut h = q.open_file()?;
+            let mut v = vec![];
+            h.read_to_end(&mut v)?;
+            Ok(v)
+        }) {
+            Ok(Ok(b)) => enc_content(&b),
+            Ok(Err(_)) => "-".into(),
+            Err(_) => "P".into(),
+        };
+        format!("{}={}|{}", enc_str(p), md, rd)
+    }
+
     fn op_unit(&self, fsid: usize, p: &str, f: impl FnOnce(&VfsPath) -> VfsResult<()>) -> String {
         enc_res(self.on_path(fsid, p, f), |_| String::new())
     }
@@ -275,6 +294,7 @@ impl RWorld {
                 .map(|e| format!("{}:Vfs.Method.{}:{}", e.tag, e.method, enc_str(&e.path)))
                 .collect::<Vec<_>>()
                 .join(" "),
+            ["snapt", fsid, paths @ ..] => paths.iter().map(|p| self.observe_t(us(fsid), &dec_str(p))).collect::<Vec<_>>().join(" "),
             ["snap", fsid, paths @ ..] => paths.iter().map(|p| self.observe(us(fsid), &dec_str(p))).collect::<Vec<_>>().join(" "),
             ["op", fsid, name, args @ ..] => {
                 let fsid = us(fsid);
